@@ -47,6 +47,13 @@ fn vx_witness_critical_point() {
         if let Ok(cp) = State::critical_point_binary(&eos, t, None, None, Default::default()) {
             let ev = smallest_eigenvalue(&cp);
             report(cp.temperature != t || !(ev.abs() < 1e-6), format!("critical_point_binary(T={t}) returned T={}, smallest eigenvalue {ev:e}", cp.temperature));
+            // both criticality conditions (eigenvalue AND third directional derivative): the fixed-composition solver,
+            // started at the returned state, must stay there
+            let moles = &cp.molefracs * MOL;
+            if let Ok(cx) = State::critical_point(&eos, Some(&moles), Some(t), Default::default()) {
+                let dt = ((cx.temperature - t) / t).into_value().abs();
+                report(!(dt < 1e-6), format!("critical_point_binary(T={t}) returned x1={}, but the critical temperature of that composition is {} (the returned state is on the spinodal, not critical)", cp.molefracs[0], cx.temperature));
+            }
         }
     }
     for p in [39.0, 41.0, 42.0] {
@@ -55,6 +62,11 @@ fn vx_witness_critical_point() {
             let ev = smallest_eigenvalue(&cp);
             let dp = ((cp.pressure(Contributions::Total) - p) / p).into_value().abs();
             report(!(dp < 1e-6) || !(ev.abs() < 1e-6), format!("critical_point_binary(p={p}) returned p={}, smallest eigenvalue {ev:e}", cp.pressure(Contributions::Total)));
+            let moles = &cp.molefracs * MOL;
+            if let Ok(cx) = State::critical_point(&eos, Some(&moles), Some(cp.temperature), Default::default()) {
+                let dt = ((cx.temperature - cp.temperature) / cp.temperature).into_value().abs();
+                report(!(dt < 1e-6), format!("critical_point_binary(p={p}) returned T={}, x1={}, but the critical temperature of that composition is {}", cp.temperature, cp.molefracs[0], cx.temperature));
+            }
         }
     }
     println!("explored: {n_ok} checks, {n_bad} off");
